@@ -160,6 +160,18 @@ type answer struct {
 	Params denco.Params
 }
 
+// String renders the answer with quoted parameter texts (paths are arbitrary bytes).
+func (a answer) String() string {
+	if !a.Found {
+		return "not found"
+	}
+	var ps []string
+	for _, p := range a.Params {
+		ps = append(ps, fmt.Sprintf("%s=%q", p.Name, p.Value))
+	}
+	return fmt.Sprintf("pattern #%d [%s]", a.Data, strings.Join(ps, " "))
+}
+
 func lookup(r *denco.Router, path string) (a answer, v *kit.Violation) {
 	v = kit.Guard("Router.Lookup", func() {
 		data, params, found := r.Lookup(path)
@@ -264,7 +276,7 @@ func Check(c Case) *kit.Violation {
 				return kit.Failf("pats=%q order=%v path=%q: %s", keys(c.Pats), c.Perms[i], path, v.Msg)
 			}
 			if !sameAnswer(got, og) {
-				return kit.Failf("ORDER-DEPENDENT pats=%q path=%q: given order -> %+v, order %v -> %+v", keys(c.Pats), path, got, c.Perms[i], og)
+				return kit.Failf("ORDER-DEPENDENT pats=%q path=%q: given order -> %v, order %v -> %v", keys(c.Pats), path, got, c.Perms[i], og)
 			}
 		}
 		if mux != nil {
@@ -281,7 +293,7 @@ func Check(c Case) *kit.Violation {
 				return kit.Failf("MUX pats=%q path=%q: no handler ran and the status is %d", keys(c.Pats), path, rec.Code)
 			}
 			if !sameAnswer(got, mg) {
-				return kit.Failf("MUX-DIFFERS pats=%q path=%q: Router -> %+v, Mux handler -> %+v", keys(c.Pats), path, got, mg)
+				return kit.Failf("MUX-DIFFERS pats=%q path=%q: Router -> %v, Mux handler -> %v", keys(c.Pats), path, got, mg)
 			}
 		}
 	}
@@ -325,15 +337,15 @@ func judge(pats []Pat, path string, got answer) *kit.Violation {
 	p := pats[got.Data]
 	vals, ok := match(p, path)
 	if !ok {
-		return kit.Failf("UNSOUND pats=%q path=%q -> %q %v, which the path does not instantiate", keys(pats), path, p.Key(), got.Params)
+		return kit.Failf("UNSOUND pats=%q path=%q -> %q %v, which the path does not instantiate", keys(pats), path, p.Key(), got)
 	}
 	names := p.names()
 	if len(got.Params) != len(vals) {
-		return kit.Failf("PARAMCOUNT pats=%q path=%q -> %q params %v, want texts %q", keys(pats), path, p.Key(), got.Params, vals)
+		return kit.Failf("PARAMCOUNT pats=%q path=%q -> %q params %v, want texts %q", keys(pats), path, p.Key(), got, vals)
 	}
 	for i := range vals {
 		if got.Params[i].Value != vals[i] || got.Params[i].Name != names[i] {
-			return kit.Failf("PARAMS pats=%q path=%q -> %q params %v, want %v=%q", keys(pats), path, p.Key(), got.Params, names, vals)
+			return kit.Failf("PARAMS pats=%q path=%q -> %q params %v, want %v=%q", keys(pats), path, p.Key(), got, names, vals)
 		}
 	}
 	// a path equal to a parameter-free pattern returns that pattern's value
